@@ -225,10 +225,22 @@ type Machine struct {
 	Notes   []string
 	// Cmps records comparisons of a non-constant vector with a constant (x == C, x != C ...)
 	Cmps map[ssa.Value]CmpInfo
-	kz   map[*ssa.BasicBlock]map[string]bool
+	// Snaps: memory state at every call to the append builtin (where a packet is emitted)
+	Snaps map[*ssa.Call]map[string]Vec
+	// Stores: every executed store in program (RPO) order
+	Stores []StoreRec
+	kz     map[*ssa.BasicBlock]map[string]bool
 }
 
 // RetState is the symbolic state at a return.
+// StoreRec logs one executed store: the cell, and the value vector at that point.
+type StoreRec struct {
+	Instr  *ssa.Store
+	Key    string
+	Val    Vec
+	InLoop bool
+}
+
 // CmpInfo describes `Vec op Const`.
 type CmpInfo struct {
 	Op    token.Token
@@ -553,59 +565,46 @@ func (m *Machine) execBlock(b *ssa.BasicBlock) {
 			}
 		}
 		for k := range keys {
-			var tv, fv Vec
-			haveT, haveF := false, false
-			same := true
-			var first Vec
-			for i, p := range preds {
-				v, has := m.mem[p][k]
-				if !has {
-					v = nil
-				}
-				if i == 0 {
-					first = v
-				} else if !vecEqual(first, v) {
-					same = false
-				}
-				if ok && len(preds) == 2 {
-					if side[p] {
-						tv, haveT = v, has
-					} else {
-						fv, haveF = v, has
-					}
-				}
-			}
-			if same && first != nil {
-				state[k] = first
-				continue
-			}
-			if ok && len(preds) == 2 && (haveT || haveF) {
-				w := len(tv)
-				if len(fv) > w {
-					w = len(fv)
-				}
-				if !haveT {
-					tv = m.initialCell(k, w)
-				}
-				if !haveF {
-					fv = m.initialCell(k, w)
-				}
-				if len(tv) == len(fv) {
-					r := make(Vec, w)
-					for i := range r {
-						r[i] = muxBit(c, tv[i], fv[i])
-					}
-					state[k] = r
-					continue
-				}
-			}
-			w := len(first)
+			w := 0
 			for _, p := range preds {
 				if v := m.mem[p][k]; len(v) > w {
 					w = len(v)
 				}
 			}
-			state[k] = topVec(w)
+			vals := make([]Vec, len(preds))
+			for i, p := range preds {
+				v, has := m.mem[p][k]
+				if !has || len(v) != w {
+					v = m.initialCell(k, w)
+				}
+				vals[i] = v
+			}
+			r := make(Vec, w)
+			for j := 0; j < w; j++ {
+				same := true
+				for i := 1; i < len(vals); i++ {
+					if vals[i][j] != vals[0][j] {
+						same = false
+					}
+				}
+				switch {
+				case same:
+					r[j] = vals[0][j]
+				case ok && len(preds) == 2:
+					var tb, fb Bit
+					for i, p := range preds {
+						if side[p] {
+							tb = vals[i][j]
+						} else {
+							fb = vals[i][j]
+						}
+					}
+					r[j] = muxBit(c, tb, fb)
+				default:
+					r[j] = Bit{K: Top}
+				}
+			}
+			state[k] = r
 		}
 	}
 	if m.inLoop[b] {
@@ -620,7 +619,7 @@ func (m *Machine) execBlock(b *ssa.BasicBlock) {
 // initialCell is the content of a cell never written on a path: a source for receiver/param
 // memory, zero for fresh local memory.
 func (m *Machine) initialCell(key string, w int) Vec {
-	if strings.HasPrefix(key, "recv") || strings.HasPrefix(key, "param:") || strings.Contains(key, "[") && !strings.HasPrefix(key, "t") {
+	if strings.HasPrefix(key, "recv") || strings.HasPrefix(key, "param:") || strings.HasPrefix(key, "obj:") || strings.Contains(key, "[") && !strings.HasPrefix(key, "t") {
 		return srcVec(key, w)
 	}
 	return constVec(0, w)
@@ -808,11 +807,13 @@ func (m *Machine) exec(in ssa.Instruction, state map[string]Vec) {
 		if !ok {
 			return
 		}
-		if m.inLoop[x.Block()] {
+		if m.inLoop[x.Block()] && !m.iterationLocal(x.Addr) {
 			state[key] = topVec(w)
+			m.Stores = append(m.Stores, StoreRec{x, key, m.val(x.Val), true})
 			return
 		}
 		state[key] = m.val(x.Val)
+		m.Stores = append(m.Stores, StoreRec{x, key, state[key], false})
 	case *ssa.Call:
 		m.call(x, state)
 	case *ssa.Field:
@@ -1124,7 +1125,7 @@ func (m *Machine) call(x *ssa.Call, state map[string]Vec) {
 			if !ok {
 				continue
 			}
-			if m.inLoop[x.Block()] {
+			if m.inLoop[x.Block()] && !m.iterationLocalSlice(x.Call.Args[1]) {
 				state[key] = topVec(8)
 				continue
 			}
@@ -1132,9 +1133,38 @@ func (m *Machine) call(x *ssa.Call, state map[string]Vec) {
 		}
 		return
 	}
+	if b := core.BuiltinName(x); b == "append" {
+		if m.Snaps == nil {
+			m.Snaps = map[*ssa.Call]map[string]Vec{}
+		}
+		snap := make(map[string]Vec, len(state))
+		for k, v := range state {
+			snap[k] = v
+		}
+		m.Snaps[x] = snap
+	}
 	if b := core.BuiltinName(x); b == "len" || b == "cap" {
 		m.setEnv(x, srcVec(b+"("+m.lenName(x.Call.Args[0])+")", 64))
 		return
+	}
+	// local objects whose address is handed to a callee may be written by it: from here on their
+	// cells are unknown inputs, not zeroes
+	for _, a := range x.Call.Args {
+		if _, isPtr := a.Type().Underlying().(*types.Pointer); !isPtr {
+			continue
+		}
+		root, _ := core.AddrKey(a)
+		if al, ok := root.(*ssa.Alloc); ok {
+			if _, named := m.names[al]; !named {
+				m.names[al] = "obj:" + al.Comment
+			}
+			prefix := m.rootName(al)
+			for k := range state {
+				if strings.HasPrefix(k, prefix+".") || k == prefix {
+					delete(state, k)
+				}
+			}
+		}
 	}
 	callee := x.Call.StaticCallee()
 	if callee != nil && !x.Call.IsInvoke() && core.InModule(callee) && len(callee.Blocks) > 0 && m.depth < 4 && w > 0 {
@@ -1396,3 +1426,35 @@ func (m *Machine) EachCell(f func(key string, v Vec)) {
 		}
 	}
 }
+
+// iterationLocal: the written object is allocated inside the loop body (a fresh object per
+// iteration), so stores to it are positional within one iteration.
+func (m *Machine) iterationLocal(addr ssa.Value) bool {
+	ia, ok := addr.(*ssa.IndexAddr)
+	if !ok {
+		return false
+	}
+	return m.iterationLocalSlice(ia.X)
+}
+
+func (m *Machine) iterationLocalSlice(sl ssa.Value) bool {
+	root, _, _, ok := m.sliceBase(sl)
+	if !ok {
+		return false
+	}
+	mk, ok := root.(*ssa.MakeSlice)
+	return ok && m.inLoop[mk.Block()]
+}
+
+// InLoop reports whether block b belongs to a loop.
+func (m *Machine) InLoop(b *ssa.BasicBlock) bool { return m.inLoop[b] }
+
+// EachValue visits every SSA value vector computed.
+func (m *Machine) EachValue(f func(v ssa.Value, vec Vec)) {
+	for v, vec := range m.env {
+		f(v, vec)
+	}
+}
+
+// CondOf returns the vector of an If's condition.
+func (m *Machine) CondOf(iff *ssa.If) Vec { return m.val(iff.Cond) }
